@@ -10,8 +10,8 @@ const BOPS: &[&str] = &["arith", "dot", "approx_eq", "copy_from"];
 const NORM_PS: [f64; 6] = [1.0, 2.0, 3.0, 0.5, f64::INFINITY, f64::NEG_INFINITY];
 const SCALARS: [f64; 4] = [2.0, -3.0, 0.5, 0.0];
 
-pub fn run_unary<T: W>(n: usize, fs: FillSet, seed: u64) {
-    let fi = mc::choose(n_fills(1, n, fs));
+pub fn run_unary<T: W>(n: usize, fs: FillSet, shard: (usize, usize), seed: u64) {
+    let fi = crate::unary::shard_fill(n_fills(1, n, fs), shard.0, shard.1);
     let a: Vec<f64> = fill(fi, 1, n, fs, seed).round::<T>().v;
     let v: Vec<T> = vt::<T>(&a);
     let op = UOPS[mc::choose(UOPS.len())];
